@@ -79,10 +79,24 @@ Definition fd_msgs (f : fd) : list msg :=
 Definition fd_ok (f : fd) : bool :=
   match f with
   | FDH h => match hpre h, hpost h, hph h with
-             | None, None, (H0 | HRwFalse | HWait | HResume | HRwBack | HRewind _) => hwas h
+             | None, None, (H0 | HRwFalse | HWait | HResume | HRwBack | HRewind _) => true
              | _, _, _ => false
              end
   | _ => true
+  end.
+(* frames that can be on the stack while rewinding is switched on *)
+Definition fd_on (f : fd) : bool :=
+  match f with
+  | FDH h => hwas h && match hph h with H0 | HRwBack | HRewind _ => true | _ => false end
+  | _ => true
+  end.
+(* frames pushed while a suspension keeps rewinding switched off: they re-issue nothing *)
+Definition quietw (f : fd) : bool :=
+  match f with
+  | FDL [] => true
+  | FDL _ => false
+  | FDS _ _ => true
+  | FDH h => negb (hwas h) && match hrw h with [] => true | _ => false end && match hph h with HRewind (_ :: _) => false | _ => true end
   end.
 (* not started yet: its first message (rewindable False) acts as a checkpoint *)
 Definition fd_hold (f : fd) : bool := match f with FDH h => match hph h with H0 => true | _ => false end | _ => false end.
@@ -90,6 +104,10 @@ Definition fd_hold (f : fd) : bool := match f with FDH h => match hph h with H0 
 Definition fd_win (f : fd) : bool :=
   match f with FDH h => match hph h with HRwFalse | HWait | HResume => true | _ => false end | _ => false end.
 Definition fmsgs (fl : list fd) : list msg := List.concat (map fd_msgs fl).
+(* the stack while rewinding is off: quiet frames, the suspender plan that switched it off, frames from before *)
+Definition WinOK (fl : list fd) : Prop :=
+  exists tops h rest, fl = tops ++ FDH h :: rest /\ forallb quietw tops = true /\ fd_win (FDH h) = true /\ hwas h = true /\
+                      forallb fd_on rest = true.
 Arguments fmsgs : simpl never.
 
 Lemma fmsgs_cons f fl : fmsgs (f :: fl) = fd_msgs f ++ fmsgs fl.
@@ -130,9 +148,7 @@ Definition LinkR (rw : bool) (q : pos) (s : st) : Prop :=
   uid_supply s = a_next (p_acur q) /\
   BR (bundlers s) (p_a0 q) (p_acur q) (p_aend q) /\
   exc_slot s = None /\ stashed s = None /\
-  (if rw then forallb (fun f => negb (fd_win f)) (p_fl q) = true
-   else p_c q = [] /\ p_infl q = [] /\ exists h rest, p_fl q = FDH h :: rest /\ fd_win (FDH h) = true /\
-                                                      forallb (fun f => negb (fd_win f)) rest = true) /\
+  (if rw then forallb fd_on (p_fl q) = true else p_c q = [] /\ p_infl q = [] /\ WinOK (p_fl q)) /\
   rewindable s = rw /\
   record_intr s = false /\ main_err s = None.
 Definition Link := LinkR true.
@@ -156,8 +172,9 @@ Definition not_new (fl : list fd) : Prop := match fl with FDS _ false :: _ => Fa
 Definition RespsOK (fl : list fd) (n : nat) (s : st) : Prop :=
   exists vs, resps s = map RVal vs /\ List.length vs = n /\ new_none fl vs.
 
-Definition Core (q : pos) (s : st) (os : list obs) : Prop := PosOK q /\ Link q s /\ Docs q os.
-Definition CoreW (q : pos) (s : st) (os : list obs) : Prop := PosOK q /\ LinkR false q s /\ Docs q os.
+Definition CoreR (rw : bool) (q : pos) (s : st) (os : list obs) : Prop := PosOK q /\ LinkR rw q s /\ Docs q os.
+Definition Core := CoreR true.
+Definition CoreW := CoreR false.
 Definition FinCore (s : st) (os : list obs) : Prop :=
   forallb (is_single P) (plans s) = true /\ bundlers s = [] /\ stashed s = None /\ main_err s = None /\ DocsAll os.
 
@@ -175,16 +192,16 @@ Inductive Inv (s : st) (os : list obs) : Prop :=
              last_msg None os = Some m -> not_new (p_fl q) -> Inv s os
   | I_rk q : Core q s os -> state s = Running -> pc s = PcCmd KCkptSleep -> must_cancel s = false -> permit s = true ->
              p_infl q = [] -> RespsOK (List.tl (p_fl q)) (List.length (p_fl q)) s -> not_new (p_fl q) -> Inv s os
-  | I_ps q : Core q s os -> state s = Pausing -> pc s = PcSleep0 -> must_cancel s = true -> interrupted s = true ->
+  | I_ps q rw : CoreR rw q s os -> state s = Pausing -> pc s = PcSleep0 -> must_cancel s = true -> interrupted s = true ->
              RespsOK (p_fl q) (S (List.length (p_fl q))) s -> Inv s os
-  | I_pc q k : Core q s os -> state s = Pausing -> pc s = PcCmd k -> must_cancel s = true -> interrupted s = true ->
+  | I_pc q k rw : CoreR rw q s os -> state s = Pausing -> pc s = PcCmd k -> must_cancel s = true -> interrupted s = true ->
              RespsOK (List.tl (p_fl q)) (List.length (p_fl q)) s -> Inv s os
-  | I_pd q : Core q s os -> state s = Paused -> pc s = PcPaused -> must_cancel s = false ->
+  | I_pd q rw : CoreR rw q s os -> state s = Paused -> pc s = PcPaused -> must_cancel s = false ->
              (interrupted s = true -> permit s = false) -> (interrupted s = false -> InflOK q) ->
              RespsOK (p_fl q) (S (List.length (p_fl q))) s -> Inv s os
-  | I_ss q : Core q s os -> state s = Suspending -> pc s = PcSleep0 -> must_cancel s = true -> permit s = true ->
+  | I_ss q rw : CoreR rw q s os -> state s = Suspending -> pc s = PcSleep0 -> must_cancel s = true -> permit s = true ->
              TopNew q -> RespsOK (p_fl q) (S (List.length (p_fl q))) s -> Inv s os
-  | I_sc q k : Core q s os -> state s = Suspending -> pc s = PcCmd k -> must_cancel s = true -> permit s = true ->
+  | I_sc q k rw : CoreR rw q s os -> state s = Suspending -> pc s = PcCmd k -> must_cancel s = true -> permit s = true ->
              (exists sid fl0 vs0, p_fl q = FDS sid false :: fl0 /\ resps s = map RVal (VNone :: vs0) /\
                                   List.length vs0 = List.length fl0 /\ not_new fl0 /\ new_none (List.tl fl0) vs0) -> Inv s os
   | I_w q : CoreW q s os -> state s = Running -> pc s = PcSleep0 -> must_cancel s = false -> permit s = true ->
@@ -203,11 +220,11 @@ Ltac inv_cases HI :=
                  | q (HP & HLk & HD) Hst Hpc Hmc Hpm Hin Hrs
                  | q k m (HP & HLk & HD) Hst Hpc Hmc Hpm Hin Hkm Hrs Hlm Hnn
                  | q (HP & HLk & HD) Hst Hpc Hmc Hpm Hin Hrs Hnn
-                 | q (HP & HLk & HD) Hst Hpc Hmc Hit Hrs
-                 | q k (HP & HLk & HD) Hst Hpc Hmc Hit Hrs
-                 | q (HP & HLk & HD) Hst Hpc Hmc Hip Hii Hrs
-                 | q (HP & HLk & HD) Hst Hpc Hmc Hpm Htn Hrs
-                 | q k (HP & HLk & HD) Hst Hpc Hmc Hpm Hsc
+                 | q rw (HP & HLk & HD) Hst Hpc Hmc Hit Hrs
+                 | q k rw (HP & HLk & HD) Hst Hpc Hmc Hit Hrs
+                 | q rw (HP & HLk & HD) Hst Hpc Hmc Hip Hii Hrs
+                 | q rw (HP & HLk & HD) Hst Hpc Hmc Hpm Htn Hrs
+                 | q k rw (HP & HLk & HD) Hst Hpc Hmc Hpm Hsc
                  | q (HP & HLk & HD) Hst Hpc Hmc Hpm Hrs
                  | q sid (HP & HLk & HD) Hst Hpc Hmc Hpm Hhw Hrs
                  | (F1 & F2 & F3 & F4 & F5) Hst Hpc Hmc Hca
@@ -358,20 +375,17 @@ Lemma Inv_ext s s' os :
   Inv s os -> Inv s' os.
 Proof.
   intros N C1 C2 C3 C5 C6 C4 HB HB0 HI. pose proof N as (A1 & A2 & A3 & A5 & A6 & A7 & A8 & A9 & A10).
-  assert (HC : forall q, Core q s os -> Core q s' os).
-  { intros q (X & Y & Z). split; [exact X | split; [eapply LinkR_ext; eassumption | exact Z]]. }
-  assert (HCW : forall q, CoreW q s os -> CoreW q s' os).
-  { intros q (X & Y & Z). split; [exact X | split; [eapply LinkR_ext; eassumption | exact Z]]. }
+  assert (HC : forall rw q, CoreR rw q s os -> CoreR rw q s' os).
+  { intros rw q (X & Y & Z). split; [exact X | split; [eapply LinkR_ext; eassumption | exact Z]]. }
   assert (HR : forall fl n, RespsOK fl n s -> RespsOK fl n s') by (intros fl n; apply RespsOK_ext; exact C6).
   assert (HPt : permit s = true -> permit s' = true) by (intros Hp; destruct C4 as [C4 | [C4 _]]; congruence).
   inv_cases HI;
     [ eapply I_ns with (q := q) | eapply I_rs with (q := q) | eapply (I_rc _ _ q k m) | eapply I_rk with (q := q)
-    | eapply I_ps with (q := q) | eapply (I_pc _ _ q k) | eapply I_pd with (q := q) | eapply I_ss with (q := q)
-    | eapply (I_sc _ _ q k) | eapply I_w with (q := q) | eapply (I_wc _ _ q sid) | eapply I_final | eapply I_late
+    | eapply (I_ps _ _ q rw) | eapply (I_pc _ _ q k rw) | eapply (I_pd _ _ q rw) | eapply (I_ss _ _ q rw)
+    | eapply (I_sc _ _ q k rw) | eapply I_w with (q := q) | eapply (I_wc _ _ q sid) | eapply I_final | eapply I_late
     | eapply I_done with (r := r) ];
     try congruence; try assumption;
     try solve [apply HC; split; [assumption | split; assumption]];
-    try solve [apply HCW; split; [assumption | split; assumption]];
     try solve [apply HR; assumption]; try solve [apply HPt; assumption];
     try solve [destruct Hpc; [left | right]; congruence];
     try solve [destruct Hst; [left | right]; congruence];
@@ -460,6 +474,26 @@ Lemma HoldOK_tail c infl f fl : HoldOK c infl (f :: fl) -> fd_msgs f = [] -> Hol
 Proof.
   intros H Hq tops h rest E Hph. destruct (H (f :: tops) h rest) as (A & B & C); [rewrite E; reflexivity | exact Hph |].
   rewrite fmsgs_cons, Hq in C. auto.
+Qed.
+
+Lemma WinOK_push f fl : quietw f = true -> WinOK fl -> WinOK (f :: fl).
+Proof.
+  intros Hq (tops & h & rest & E & H1 & H2 & H3 & H4). exists (f :: tops), h, rest. rewrite E. cbn [forallb app]. rewrite Hq, H1. auto.
+Qed.
+Lemma WinOK_outer h fl : fd_win (FDH h) = true -> hwas h = true -> forallb fd_on fl = true -> WinOK (FDH h :: fl).
+Proof. intros H1 H2 H3. exists [], h, fl. auto. Qed.
+Lemma WinOK_cases f fl : WinOK (f :: fl) ->
+  (quietw f = true /\ WinOK fl) \/ (exists h, f = FDH h /\ fd_win (FDH h) = true /\ hwas h = true /\ forallb fd_on fl = true).
+Proof.
+  intros (tops & h & rest & E & H1 & H2 & H3 & H4). destruct tops as [|t tops]; cbn [app] in E; injection E as -> ->.
+  - right. exists h. auto.
+  - left. cbn [forallb] in H1. apply andb_true_iff in H1. destruct H1 as [Ht H1]. split; [exact Ht|]. exists tops, h, rest. auto.
+Qed.
+Lemma quietw_msgs f : quietw f = true -> fd_msgs f = [].
+Proof.
+  destruct f as [[|m l]|sid b|h]; cbn; try discriminate; try reflexivity.
+  intros H. apply andb_true_iff in H. destruct H as [H H3]. apply andb_true_iff in H. destruct H as [_ H2].
+  destruct (hrw h); [|discriminate H2]. destruct (hph h) as [| |p0| | |p0| |[|m ms]]; try reflexivity. discriminate H3.
 Qed.
 
 (* a body message comes off the front of what the stack will yield *)
@@ -745,7 +779,7 @@ Lemma process_msg (s : st) os q v rest vs top tl m f' po fl' u' p' stt :
   plans s = top :: tl -> map fd_frame fl' ++ [FUser pid p' stt] = f' :: tl ->
   frame_resume top (Send v) = (Yielded m f', po) -> po_ok po ->
   pend q = m :: (fmsgs fl' ++ u') -> follows u' p' -> forallb bodym (fmsgs fl') = true -> forallb fd_ok fl' = true ->
-  NoHold fl' -> forallb (fun f => negb (fd_win f)) fl' = true -> not_new fl' -> new_none (List.tl fl') vs ->
+  NoHold fl' -> forallb fd_on fl' = true -> not_new fl' -> new_none (List.tl fl') vs ->
   (bodym m = true \/ (is_head (mcmd m) = true /\ p_fl q = [] /\ fl' = [] /\ p_u q = m :: u')) ->
   exists s' o, task_step s = (s', o) /\ (reads_ok rdm (last_msg None os) o = true -> Inv s' (os ++ o)).
 Proof.
@@ -878,7 +912,7 @@ Proof.
   - exists (fd_frame l), (map fd_frame fl ++ [f]). split; [reflexivity|]. rewrite app_length, map_length. cbn. lia.
 Qed.
 
-Lemma nowin_tl f fl : forallb (fun f => negb (fd_win f)) (f :: fl) = true -> forallb (fun f => negb (fd_win f)) fl = true.
+Lemma nowin_tl {A} (g : A -> bool) f fl : forallb g (f :: fl) = true -> forallb g fl = true.
 Proof. cbn. intros H. apply andb_true_iff in H. apply H. Qed.
 
 (* a frame with nothing left to re-issue returns and is popped *)
@@ -980,7 +1014,8 @@ Proof.
   cbn in P4. injection P4 as Ea Ed. rewrite <- Ea in *.
   rewrite Efl in P8b. cbn [forallb fd_ok] in P8b. apply andb_true_iff in P8b. destruct P8b as [Hok Hokr].
   destruct h as [ph sid pre post was rw]. cbn [hph hpre hpost hwas] in *. subst ph.
-  destruct pre; [discriminate Hok|]. destruct post; [discriminate Hok|]. subst was.
+  destruct pre; [discriminate Hok|]. destruct post; [discriminate Hok|].
+  cbn [forallb fd_on hwas hph] in L7. apply andb_true_iff in L7. destruct L7 as [Hw L7]. rewrite andb_true_r in Hw. subst was.
   set (h' := mkhelper P HRwFalse sid true rw).
   set (sA := RE.replace_top P D (RE.set_resps P D (RE.set_must_cancel P D s false) (map RVal vs)) (FHelper h')).
   set (s3 := RE.map_bundlers P D b_snapshot (RE.set_cache P D (RE.set_rewindable P D (RE.set_cache P D sA (Some ([] ++ [rwmsg false]))) false) (Some []))).
@@ -1003,7 +1038,7 @@ Proof.
     + unfold LinkR, q', mkpos; cbn [p_c p_infl p_fl p_p p_started p_acur p_a0 p_aend map app fd_frame]. simp_st. rewrite L2. cbn [List.tl].
       repeat split; try assumption; try reflexivity.
       * apply snapshot_BR; assumption.
-      * exists h', rest. split; [reflexivity|]. split; [reflexivity|]. eapply nowin_tl. exact L7.
+      * exists [], h', rest. repeat split; try reflexivity. exact L7.
     + eapply Docs_quiet with (q := q); try reflexivity; eassumption.
   - exists (VBool false :: vs). cbn [map List.length p_fl q' mkpos]. split; [reflexivity|]. split; [lia | exact Hnn].
 Qed.
@@ -1092,13 +1127,13 @@ Proof.
     + (* the suspender plan *)
       assert (Hin : p_infl q = []) by (destruct Hio as [H | (sid & rest & H)]; [exact H | discriminate H]).
       pose proof P8b as P8b'. cbn [forallb fd_ok] in P8b'. apply andb_true_iff in P8b'. destruct P8b' as [Hok Hokr].
-      cbn [forallb fd_win negb] in L7. apply andb_true_iff in L7. destruct L7 as [Hnw L7].
+      cbn [forallb fd_on] in L7. apply andb_true_iff in L7. destruct L7 as [Hon L7]. apply andb_true_iff in Hon. destruct Hon as [Hwas Hnw].
       destruct (hpre h) eqn:Epre; [discriminate Hok|]. destruct (hpost h) eqn:Epost; [discriminate Hok|].
       destruct (hph h) as [| |p0| | |p0| |ms] eqn:Eph; try discriminate Hok; try discriminate Hnw.
       * (* not started *)
         eapply (step_rs_helper0 s os q h fl1 v vs); try eassumption; try (cbn [List.length] in *; lia); try (cbn [new_none] in Hnn; exact Hnn).
       * (* about to replay *)
-        pose proof (helper_replay_frame (hsid h) (hrw h) (hrw h) h v Epre Epost eq_refl eq_refl Hok (or_introl (conj Eph eq_refl))) as Hfr.
+        pose proof (helper_replay_frame (hsid h) (hrw h) (hrw h) h v Epre Epost eq_refl eq_refl Hwas (or_introl (conj Eph eq_refl))) as Hfr.
         destruct (hrw h) as [|m ms'] eqn:Erw.
         -- eapply (step_rs_pop s os q (FDH h) fl1 v vs VNone); try eassumption; try reflexivity; try (cbn [List.length] in *; lia); try (cbn [new_none] in Hnn; exact Hnn).
            cbn [fd_msgs]. rewrite Eph. exact Erw.
@@ -1116,7 +1151,7 @@ Proof.
            ++ left. exact Hbm.
            ++ rewrite E. exact HI.
       * (* replaying *)
-        pose proof (helper_replay_frame (hsid h) (hrw h) ms h v Epre Epost eq_refl eq_refl Hok (or_intror Eph)) as Hfr.
+        pose proof (helper_replay_frame (hsid h) (hrw h) ms h v Epre Epost eq_refl eq_refl Hwas (or_intror Eph)) as Hfr.
         destruct ms as [|m ms'].
         -- eapply (step_rs_pop s os q (FDH h) fl1 v vs VNone); try eassumption; try reflexivity; try (cbn [List.length] in *; lia); try (cbn [new_none] in Hnn; exact Hnn).
            cbn [fd_msgs]. rewrite Eph. reflexivity.
@@ -1215,8 +1250,8 @@ Qed.
 Lemma new_none_push_none fl vs : new_none (List.tl fl) vs -> new_none fl (VNone :: vs).
 Proof. destruct fl as [|[l|sid [|]|h] fl]; cbn; auto. Qed.
 
-Lemma step_task_pause (s : st) os q :
-  Core q s os -> state s = Pausing -> (pc s = PcSleep0 /\ RespsOK (p_fl q) (S (List.length (p_fl q))) s \/
+Lemma step_task_pause (s : st) os q rw :
+  CoreR rw q s os -> state s = Pausing -> (pc s = PcSleep0 /\ RespsOK (p_fl q) (S (List.length (p_fl q))) s \/
                                        exists k, pc s = PcCmd k /\ RespsOK (List.tl (p_fl q)) (List.length (p_fl q)) s) ->
   must_cancel s = true -> interrupted s = true ->
   StepOK s os (task_step s).
@@ -1230,11 +1265,11 @@ Proof.
   { cbn [app]. apply neutral_app; [apply devonly_neutral; exact Q3 | apply neutral_intro; reflexivity]. }
   pose proof (dsame_nsame _ _ S3) as N3. destruct S3 as ((K1 & K2 & K3 & K4 & K5 & K6 & K7 & K8 & K9 & K10 & K11 & K12 & K13) & C1 & C2 & C3).
   destruct Hcase as [(Hpc & (vs & Hrs & Hlen & Hnn)) | (k & Hpc & (vs & Hrs & Hlen & Hnn))]; rewrite Hpc in *; simp_st.
-  - eapply I_pd with (q := q); simp_st; try congruence.
+  - eapply (I_pd _ _ q rw); simp_st; try congruence.
     + split; [exact HP|]. split; [|exact HD].
       eapply Link_nsame; [| |exact HLk]; [unfold nsame in *; simp_st; decompose [and] N3; repeat split; congruence | simp_st; congruence].
     + exists vs. split; [simp_st; congruence|]. split; [exact Hlen | exact Hnn].
-  - eapply I_pd with (q := q); simp_st; try congruence.
+  - eapply (I_pd _ _ q rw); simp_st; try congruence.
     + split; [exact HP|]. split; [|exact HD].
       eapply Link_nsame; [| |exact HLk]; [unfold nsame in *; simp_st; decompose [and] N3; repeat split; congruence | simp_st; congruence].
     + exists (VNone :: vs). cbn [map List.length]. split; [simp_st; congruence|]. split; [lia | apply new_none_push_none; exact Hnn].
@@ -1259,8 +1294,8 @@ Proof.
 Qed.
 
 (* the parked task is scheduled *)
-Lemma step_task_pd (s : st) os q :
-  Core q s os -> state s = Paused -> pc s = PcPaused -> must_cancel s = false ->
+Lemma step_task_pd (s : st) os q rw :
+  CoreR rw q s os -> state s = Paused -> pc s = PcPaused -> must_cancel s = false ->
   (interrupted s = true -> permit s = false) -> (interrupted s = false -> InflOK q) ->
   RespsOK (p_fl q) (S (List.length (p_fl q))) s ->
   StepOK s os (task_step s).
@@ -1272,13 +1307,17 @@ Proof.
     rewrite (task_unpark P presume plan_of D dev s Hpc Hmc Hpm Hst L6)
       by (rewrite Hrs, L2, map_length, app_length, map_length; cbn; lia).
     cbn [fst snd]. intros _. apply Inv_neutral; [apply neutral_intro; reflexivity|].
-    eapply I_rs with (q := q); simp_st; try congruence.
-    + split; [exact HP|]. split; [|exact HD]. eapply Link_nsame; [nsame_tac | reflexivity | exact HLk].
-    + apply Hii. exact Hi.
-    + exists vs. split; [simp_st; exact Hrs|]. split; [exact Hlen | exact Hnn].
+    destruct rw.
+    + eapply I_rs with (q := q); simp_st; try congruence.
+      * split; [exact HP|]. split; [|exact HD]. eapply Link_nsame; [nsame_tac | reflexivity | exact HLk].
+      * apply Hii. exact Hi.
+      * exists vs. split; [simp_st; exact Hrs|]. split; [exact Hlen | exact Hnn].
+    + eapply I_w with (q := q); simp_st; try congruence.
+      * split; [exact HP|]. split; [|exact HD]. eapply Link_nsame; [nsame_tac | reflexivity | exact HLk].
+      * exists vs. split; [simp_st; exact Hrs|]. split; [exact Hlen | exact Hnn].
   - rewrite (task_step_inr s (s, [OBad 5])).
     + cbn [fst snd]. intros _. apply Inv_neutral; [apply neutral_intro; reflexivity|].
-      eapply I_pd with (q := q); try assumption; [split; [exact HP | split; [exact HLk | exact HD]] | intros _; exact Hpm | exists vs; auto].
+      eapply (I_pd _ _ q rw); try assumption; [split; [exact HP | split; [exact HLk | exact HD]] | intros _; exact Hpm | exists vs; auto].
     + unfold RE_Inv.tentry. cbv zeta. rewrite Hpc, Hmc. simp_st. rewrite Hpm. reflexivity.
 Qed.
 
@@ -1402,9 +1441,9 @@ Proof.
 Qed.
 
 Lemma step_reqpause (s : st) os d :
-  Inv s os -> rewindable s = true -> Inv (fst (step s (EvReqPause d))) (os ++ snd (step s (EvReqPause d))).
+  Inv s os -> Inv (fst (step s (EvReqPause d))) (os ++ snd (step s (EvReqPause d))).
 Proof.
-  intros HI Hrw. cbn [RE.step].
+  intros HI. cbn [RE.step].
   assert (Href : allowed (state s) Pausing = false ->
                  Inv (fst (let '(s1, e, o) := RE.request_pause P D s d in
                            let '(s2, o2) := RE.req_result P D s1 e in (s2, o ++ o2)))
@@ -1443,17 +1482,17 @@ Proof.
   - apply Href. rewrite Hst. apply allowed_idle_pausing.
   - apply Hacc; try assumption; [|rewrite Hpc; exact I].
     intros s1 E1 E2 E3 E4 E5 E6 E7 E8.
-    eapply I_ps with (q := q); try congruence.
+    eapply (I_ps _ _ q true); try congruence.
     + split; [exact HP | split; [eapply Link_nsame; eassumption | exact HD]].
     + eapply RespsOK_ext; eassumption.
   - apply Hacc; try assumption; [|rewrite Hpc; exact I].
     intros s1 E1 E2 E3 E4 E5 E6 E7 E8.
-    eapply (I_pc _ _ q k); try congruence.
+    eapply (I_pc _ _ q k true); try congruence.
     + split; [exact HP | split; [eapply Link_nsame; eassumption | exact HD]].
     + eapply RespsOK_ext; eassumption.
   - apply Hacc; try assumption; [|rewrite Hpc; exact I].
     intros s1 E1 E2 E3 E4 E5 E6 E7 E8.
-    eapply (I_pc _ _ q KCkptSleep); try congruence.
+    eapply (I_pc _ _ q KCkptSleep true); try congruence.
     + split; [exact HP | split; [eapply Link_nsame; eassumption | exact HD]].
     + eapply RespsOK_ext; eassumption.
   - apply Href. rewrite Hst. apply allowed_pausing_pausing.
@@ -1461,8 +1500,16 @@ Proof.
   - apply Href. rewrite Hst. apply allowed_paused_pausing.
   - apply Href. rewrite Hst. apply allowed_suspending_pausing.
   - apply Href. rewrite Hst. apply allowed_suspending_pausing.
-  - exfalso. destruct HLk as (_ & _ & _ & _ & _ & _ & _ & L8 & _). congruence.
-  - exfalso. destruct HLk as (_ & _ & _ & _ & _ & _ & _ & L8 & _). congruence.
+  - apply Hacc; try assumption; [|rewrite Hpc; exact I].
+    intros s1 E1 E2 E3 E4 E5 E6 E7 E8.
+    eapply (I_ps _ _ q false); try congruence.
+    + split; [exact HP | split; [eapply Link_nsame; eassumption | exact HD]].
+    + eapply RespsOK_ext; eassumption.
+  - apply Hacc; try assumption; [|rewrite Hpc; exact I].
+    intros s1 E1 E2 E3 E4 E5 E6 E7 E8.
+    eapply (I_pc _ _ q (KWaitFor [sid]) false); try congruence.
+    + split; [exact HP | split; [eapply Link_nsame; eassumption | exact HD]].
+    + eapply RespsOK_ext; eassumption.
   - apply Hacc; try assumption; [|rewrite Hpc; exact I].
     intros s1 E1 E2 E3 E4 E5 E6 (A1 & A2 & A3 & A5 & A6 & A7 & A8 & A9 & A10) A4.
     eapply I_late; try congruence; [unfold FinCore; rewrite A2, A4, A6, A10; auto | left; exact E1 | destruct Hca as [l Hca]; exists l; congruence].
@@ -1492,12 +1539,16 @@ Proof.
     - apply Nat.eqb_eq in El. destruct (p_c q) eqn:Ec; [|discriminate El].
       destruct HP as (_ & _ & _ & P4 & _). rewrite Ec in P4. cbn in P4. injection P4 as Ea _. rewrite <- Ea in L4. exact L4.
     - eapply rewind_BR; eassumption. }
+  assert (H7 : if rw then forallb fd_on (FDL (p_c q ++ p_infl q) :: p_fl q) = true
+               else @nil msg = [] /\ @nil msg = [] /\ WinOK (FDL (p_c q ++ p_infl q) :: p_fl q)).
+  { destruct rw; [exact L7|]. destruct L7 as (Ec & Ei & Hw). split; [reflexivity|]. split; [reflexivity|].
+    rewrite Ec, Ei. apply WinOK_push; [reflexivity | exact Hw]. }
   destruct N5 as (A1 & A2 & A3 & A5 & A6 & A7 & A8 & A9 & A10).
   destruct (Nat.eqb (List.length (p_c q ++ p_infl q)) 0) eqn:El; simp_st.
-  all: eapply I_pd with (q := q'); simp_st; try congruence;
+  all: eapply (I_pd _ _ q' rw); simp_st; try congruence;
     [ split; [apply PosOK_rewind; exact HP|]; split; [|eapply Docs_rewind with (q := q); try reflexivity; exact HD];
-      unfold Link, LinkR, q', mkpos; cbn [p_c p_infl p_fl p_p p_started p_acur p_a0 p_aend map app fd_frame]; simp_st;
-      repeat split; try congruence; cbn [forallb fd_win negb andb]; exact L7
+      unfold LinkR, q', mkpos; cbn [p_c p_infl p_fl p_p p_started p_acur p_a0 p_aend map app fd_frame]; simp_st;
+      repeat (split; [first [congruence | exact H7]|]); congruence
     | intros _; left; reflexivity
     | exists (VNone :: vs); cbn [map List.length p_fl q' mkpos]; split; [simp_st; congruence|]; split; [lia | exact Hnn] ].
 Qed.
@@ -1521,8 +1572,8 @@ Qed.
 
 (* ------------------------------------------------------------------ suspension *)
 (* the cancelled task of a "suspending" engine goes back to running; the request's plan is on top *)
-Lemma step_task_ss (s : st) os q :
-  Core q s os -> state s = Suspending -> pc s = PcSleep0 -> must_cancel s = true -> permit s = true ->
+Lemma step_task_ss (s : st) os q rw :
+  CoreR rw q s os -> state s = Suspending -> pc s = PcSleep0 -> must_cancel s = true -> permit s = true ->
   TopNew q -> RespsOK (p_fl q) (S (List.length (p_fl q))) s -> StepOK s os (task_step s).
 Proof.
   intros (HP & HLk & HD) Hst Hpc Hmc Hpm Htn (vs & Hrs & Hlen & Hnn).
@@ -1530,14 +1581,18 @@ Proof.
   pose proof (task_susp_cancel P presume plan_of D dev s (p_c q ++ p_infl q) Hmc Hst L1 Hpm L6) as E. cbv zeta in E. rewrite Hpc in E.
   unfold StepOK. rewrite E by (left; split; [reflexivity | rewrite Hrs, L2, map_length, app_length, map_length; cbn; lia]).
   cbn [fst snd]. intros _. apply Inv_neutral; [apply neutral_intro; reflexivity|].
-  eapply I_rs with (q := q); simp_st; try congruence.
-  - split; [exact HP|]. split; [|exact HD]. eapply Link_nsame; [nsame_tac | reflexivity | exact HLk].
-  - right. exact Htn.
-  - exists vs. split; [simp_st; exact Hrs|]. split; [exact Hlen | exact Hnn].
+  destruct rw.
+  - eapply I_rs with (q := q); simp_st; try congruence.
+    + split; [exact HP|]. split; [|exact HD]. eapply Link_nsame; [nsame_tac | reflexivity | exact HLk].
+    + right. exact Htn.
+    + exists vs. split; [simp_st; exact Hrs|]. split; [exact Hlen | exact Hnn].
+  - eapply I_w with (q := q); simp_st; try congruence.
+    + split; [exact HP|]. split; [|exact HD]. eapply Link_nsame; [nsame_tac | reflexivity | exact HLk].
+    + exists vs. split; [simp_st; exact Hrs|]. split; [exact Hlen | exact Hnn].
 Qed.
 
-Lemma step_task_sc (s : st) os q k :
-  Core q s os -> state s = Suspending -> pc s = PcCmd k -> must_cancel s = true -> permit s = true ->
+Lemma step_task_sc (s : st) os q k rw :
+  CoreR rw q s os -> state s = Suspending -> pc s = PcCmd k -> must_cancel s = true -> permit s = true ->
   (exists sid fl0 vs0, p_fl q = FDS sid false :: fl0 /\ resps s = map RVal (VNone :: vs0) /\
                        List.length vs0 = List.length fl0 /\ not_new fl0 /\ new_none (List.tl fl0) vs0) ->
   StepOK s os (task_step s).
@@ -1547,114 +1602,271 @@ Proof.
   pose proof (task_susp_cancel P presume plan_of D dev s (p_c q ++ p_infl q) Hmc Hst L1 Hpm L6) as E. cbv zeta in E. rewrite Hpc in E.
   unfold StepOK. rewrite E by (right; exists k; split; [reflexivity | rewrite Hrs, L2, Efl, map_length, app_length, map_length; cbn; lia]).
   cbn [fst snd]. intros _. apply Inv_neutral; [apply neutral_intro; reflexivity|].
-  eapply I_rs with (q := q); simp_st; try congruence.
-  - split; [exact HP|]. split; [|exact HD]. eapply Link_nsame; [nsame_tac | reflexivity | exact HLk].
-  - right. exists sid, fl0. exact Efl.
-  - exists (VNone :: VNone :: vs0). split; [simp_st; rewrite Hrs; reflexivity|]. rewrite Efl. cbn [List.length new_none]. split; [lia|].
-    split; [reflexivity | apply new_none_cons; assumption].
-Qed.
-
-Lemma helper_win_cases (h : helper P) :
-  fd_ok (FDH h) = true -> fd_win (FDH h) = true ->
-  exists sid rw, (h = mkhelper P HRwFalse sid true rw \/ h = mkhelper P HWait sid true rw \/ h = mkhelper P HResume sid true rw).
-Proof.
-  destruct h as [ph sid pre post was rw]. cbn. destruct pre; [discriminate|]. destruct post; [discriminate|].
-  intros Hok Hw. exists sid, rw. destruct ph; try discriminate Hw; cbn in Hok; subst was; auto.
+  assert (HR : RespsOK (p_fl q) (S (List.length (p_fl q))) (RE.set_pc P D (RE.set_state_raw P D (RE.set_resps P D (RE.set_must_cancel P D s false) (RVal VNone :: resps (RE.set_must_cancel P D s false))) Running) PcSleep0)).
+  { exists (VNone :: VNone :: vs0). split; [simp_st; rewrite Hrs; reflexivity|]. rewrite Efl. cbn [List.length new_none]. split; [lia|].
+    split; [reflexivity | apply new_none_cons; assumption]. }
+  destruct rw.
+  - eapply I_rs with (q := q); simp_st; try congruence.
+    + split; [exact HP|]. split; [|exact HD]. eapply Link_nsame; [nsame_tac | reflexivity | exact HLk].
+    + right. exists sid, fl0. exact Efl.
+  - eapply I_w with (q := q); simp_st; try congruence.
+    split; [exact HP|]. split; [|exact HD]. eapply Link_nsame; [nsame_tac | reflexivity | exact HLk].
 Qed.
 
 Definition wfmsg (sid : nat) : msg := RE.mk (CWaitFor [sid]).
 Definition rsmsg : msg := RE.mk CResumeFromSuspender.
 
-(* inside the section in which rewinding is off: wait_for, _resume_from_suspender, rewindable(True) *)
+(* what every step inside the window needs *)
+Lemma win_facts (s : st) os q :
+  CoreW q s os ->
+  p_c q = [] /\ p_infl q = [] /\ p_acur q = p_a0 q /\ WinOK (p_fl q) /\ cache s = Some [] /\ rewindable s = false.
+Proof.
+  intros (HP & HLk & HD). destruct HLk as (L1 & L2 & L3 & L4 & L5 & L6 & (Ec & Ei & Hw) & L8 & L9 & L10).
+  destruct HP as (_ & _ & _ & P4 & _). rewrite Ec in P4. cbn in P4. injection P4 as Ea _.
+  rewrite Ec, Ei in L1. auto 10.
+Qed.
+
+(* a message of the suspender plan is processed inside the window and its command completes;
+   [s3]: the state after the command, which leaves everything the invariant reads alone *)
+Lemma step_w_ctl_done (s : st) os q h h' fl1 v vs m r o s3 :
+  CoreW q s os -> state s = Running -> pc s = PcSleep0 -> must_cancel s = false -> permit s = true ->
+  p_fl q = FDH h :: fl1 -> fd_msgs (FDH h') = fd_msgs (FDH h) -> fd_ok (FDH h') = true -> hph h' <> H0 ->
+  WinOK (FDH h' :: fl1) ->
+  resps s = map RVal (v :: vs) -> List.length vs = S (List.length fl1) -> new_none fl1 vs ->
+  frame_resume (FHelper h) (Send v) = (Yielded m (FHelper h'), []) -> plain m = true ->
+  (let sA := RE.replace_top P D (RE.set_resps P D (RE.set_must_cancel P D s false) (map RVal vs)) (FHelper h') in
+   exec_cmd (pre_exec P D sA m) m = (s3, Done (RVal r), o) /\ dsame sA s3) ->
+  forallb devonly o = true ->
+  StepOK s os (task_step s).
+Proof.
+  intros HC Hst Hpc Hmc Hpm Efl Hm Hok Hnh Hw' Hrs Hlen Hnn Hfr Hpl (Hex & S3) Q3.
+  destruct (win_facts s os q HC) as (Ec & Ei & Ea & Hw & Hca & Hrw).
+  destruct HC as (HP & HLk & HD).
+  pose proof HLk as (L1 & L2 & L3 & L4 & L5 & L6 & L7 & L8 & L9 & L10). rewrite Efl in L2. cbn [map app fd_frame] in L2.
+  pose proof (dsame_nsame _ _ S3) as N3. destruct S3 as ((K1 & K2 & K3 & K4 & K5 & K6 & K7 & K8 & K9 & K10 & K11 & K12 & K13) & C1 & C2 & C3).
+  unfold StepOK.
+  rewrite (task_msg_done P presume plan_of D dev s v (map RVal vs) (FHelper h)
+             (map fd_frame fl1 ++ [FUser pid (p_p q) (p_started q)]) m (FHelper h') [] s3 (RVal r) o Hpc Hmc Hst Hpm L6 L5 Hrs L2);
+    [| rewrite map_length, app_length, map_length; cbn; lia | exact Hfr | exact Hpl | exact Hex | unfold keeps5; auto].
+  cbn [fst snd]. intros _.
+  destruct (ctl_out_quiet m o r [OTask WSleep0] Q3 (or_introl eq_refl)) as (O1 & O2 & O3). cbv zeta in O1, O2, O3.
+  set (q' := mkpos (p_pre q) (p_c q) (p_infl q) (FDH h' :: fl1) (p_u q) (p_p q) (p_started q) (p_a0 q) (p_acur q) (p_aend q) (p_d0 q) (p_dc q)).
+  destruct N3 as (A1 & A2 & A3 & A5 & A6 & A7 & A8 & A9 & A10). simp_st. rewrite L2 in *. cbn [List.tl] in *.
+  eapply I_w with (q := q'); simp_st; try congruence.
+  - split; [|split].
+    + apply (PosOK_retop q (FDH h) (FDH h') fl1 HP Efl Hm Hok). intros Hf. exfalso. cbn in Hf. destruct (hph h'); try discriminate Hf. apply Hnh. reflexivity.
+    + unfold LinkR, q', mkpos; cbn [p_c p_infl p_fl p_p p_started p_acur p_a0 p_aend map app fd_frame]. simp_st.
+      repeat (split; [first [congruence | split; [exact Ec | split; [exact Ei | exact Hw']]]|]); congruence.
+    + eapply Docs_quiet with (q := q); try reflexivity; eassumption.
+  - exists (r :: vs). cbn [map List.length p_fl q' mkpos new_none]. split; [simp_st; congruence|]. split; [lia | exact Hnn].
+Qed.
+
+(* wait_for: the task waits for the release *)
+Lemma step_w_wait (s : st) os q sid was rw fl1 v vs :
+  CoreW q s os -> state s = Running -> pc s = PcSleep0 -> must_cancel s = false -> permit s = true ->
+  p_fl q = FDH (mkhelper P HRwFalse sid was rw) :: fl1 -> WinOK (FDH (mkhelper P HWait sid was rw) :: fl1) ->
+  resps s = map RVal (v :: vs) -> List.length vs = S (List.length fl1) -> new_none fl1 vs ->
+  StepOK s os (task_step s).
+Proof.
+  intros HC Hst Hpc Hmc Hpm Efl Hw' Hrs Hlen Hnn.
+  destruct (win_facts s os q HC) as (Ec & Ei & Ea & Hw & Hca & Hrw).
+  destruct HC as (HP & HLk & HD).
+  pose proof HLk as (L1 & L2 & L3 & L4 & L5 & L6 & L7 & L8 & L9 & L10). rewrite Efl in L2. cbn [map app fd_frame] in L2.
+  set (h' := mkhelper P HWait sid was rw).
+  set (sA := RE.replace_top P D (RE.set_resps P D (RE.set_must_cancel P D s false) (map RVal vs)) (FHelper h')).
+  assert (Hex : exec_cmd (pre_exec P D sA (wfmsg sid)) (wfmsg sid) = (sA, Susp (KWaitFor [sid]), [])).
+  { unfold pre_exec. cbn [mobj wfmsg RE.mk mcmd]. subst sA. simp_st. rewrite Hca, Hrw. cbn [andb]. reflexivity. }
+  unfold StepOK.
+  rewrite (task_msg_susp P presume plan_of D dev s v (map RVal vs) (FHelper (mkhelper P HRwFalse sid was rw))
+             (map fd_frame fl1 ++ [FUser pid (p_p q) (p_started q)]) (wfmsg sid) (FHelper h') [] sA (KWaitFor [sid]) [] Hpc Hmc L6 L5 Hrs L2);
+    [| reflexivity | reflexivity | exact Hex].
+  cbn [fst snd app]. intros _.
+  set (q' := mkpos (p_pre q) (p_c q) (p_infl q) (FDH h' :: fl1) (p_u q) (p_p q) (p_started q) (p_a0 q) (p_acur q) (p_aend q) (p_d0 q) (p_dc q)).
+  subst sA. simp_st.
+  eapply (I_wc _ _ q' sid); simp_st; rewrite ?L2; cbn [List.tl]; try congruence.
+  - split; [|split].
+    + apply (PosOK_retop q (FDH (mkhelper P HRwFalse sid was rw)) (FDH h') fl1 HP Efl eq_refl).
+      * reflexivity.
+      * intros Hf. discriminate Hf.
+    + unfold LinkR, q', mkpos; cbn [p_c p_infl p_fl p_p p_started p_acur p_a0 p_aend map app fd_frame]. simp_st. rewrite L2. cbn [List.tl].
+      repeat (split; [first [assumption | reflexivity | split; [exact Ec | split; [exact Ei | exact Hw']]]|]); assumption.
+    + eapply Docs_quiet with (q := q); try reflexivity; try eassumption; reflexivity.
+  - exists h', fl1. split; reflexivity.
+  - exists vs. cbn [p_fl q' mkpos List.tl List.length]. split; [reflexivity|]. split; [lia | exact Hnn].
+Qed.
+
+(* rewindable(True) by the suspender plan that switched rewinding off: the window ends; a checkpoint-like message *)
+Lemma step_w_rw_on (s : st) os q sid rw fl1 v vs :
+  CoreW q s os -> state s = Running -> pc s = PcSleep0 -> must_cancel s = false -> permit s = true ->
+  p_fl q = FDH (mkhelper P HResume sid true rw) :: fl1 -> forallb fd_on fl1 = true ->
+  resps s = map RVal (v :: vs) -> List.length vs = S (List.length fl1) -> new_none fl1 vs ->
+  StepOK s os (task_step s).
+Proof.
+  intros HC Hst Hpc Hmc Hpm Efl Hon Hrs Hlen Hnn.
+  destruct (win_facts s os q HC) as (Ec & Ei & Ea & Hw & Hca & Hrw).
+  destruct HC as (HP & HLk & HD).
+  pose proof HLk as (L1 & L2 & L3 & L4 & L5 & L6 & L7 & L8 & L9 & L10). rewrite Efl in L2. cbn [map app fd_frame] in L2.
+  pose proof (pos_facts q HP) as (W0 & Wc & We & Hrr & Hn & Hds & Hfresh & _). rewrite Ea in *.
+  set (h' := mkhelper P HRwBack sid true rw).
+  set (sA := RE.replace_top P D (RE.set_resps P D (RE.set_must_cancel P D s false) (map RVal vs)) (FHelper h')).
+  set (s3 := RE.map_bundlers P D b_snapshot (RE.set_cache P D (RE.set_rewindable P D sA true) (Some []))).
+  assert (Hex : exec_cmd (pre_exec P D sA (rwmsg true)) (rwmsg true) = (s3, Done (RVal (VBool true)), [])).
+  { unfold pre_exec. cbn [mobj rwmsg RE.mk mcmd]. subst s3 sA. simp_st. rewrite Hca, Hrw. cbn [andb].
+    unfold RE.exec_cmd. cbn [mcmd rwmsg RE.mk]. simp_st. rewrite Hrw. cbn [Bool.eqb negb andb]. unfold RE.resumable, RE.reset_checkpoint. simp_st. rewrite Hca. reflexivity. }
+  unfold StepOK.
+  rewrite (task_msg_done P presume plan_of D dev s v (map RVal vs) (FHelper (mkhelper P HResume sid true rw))
+             (map fd_frame fl1 ++ [FUser pid (p_p q) (p_started q)]) (rwmsg true) (FHelper h') [] s3 (RVal (VBool true)) [] Hpc Hmc Hst Hpm L6 L5 Hrs L2);
+    [| rewrite map_length, app_length, map_length; cbn; lia | reflexivity | reflexivity | exact Hex | subst s3 sA; unfold keeps5; simp_st; repeat split; reflexivity].
+  cbn [fst snd]. intros _.
+  destruct (ctl_out_quiet (rwmsg true) [] (VBool true) [OTask WSleep0] eq_refl (or_introl eq_refl)) as (O1 & O2 & O3). cbv zeta in O1, O2, O3.
+  cbn [app] in O1, O2, O3 |- *.
+  set (q' := mkpos (p_pre q) (p_c q) (p_infl q) (FDH h' :: fl1) (p_u q) (p_p q) (p_started q) (p_a0 q) (p_acur q) (p_aend q) (p_d0 q) (p_dc q)).
+  subst s3 sA. simp_st.
+  eapply I_rs with (q := q'); simp_st; rewrite ?L2; cbn [List.tl]; try congruence.
+  - split; [|split].
+    + apply (PosOK_retop q (FDH (mkhelper P HResume sid true rw)) (FDH h') fl1 HP Efl eq_refl).
+      * reflexivity.
+      * intros Hf. discriminate Hf.
+    + unfold Link, LinkR, q', mkpos; cbn [p_c p_infl p_fl p_p p_started p_acur p_a0 p_aend map app fd_frame]. simp_st. rewrite L2. cbn [List.tl].
+      rewrite Ec, Ei, Ea. cbn [app].
+      repeat (split; [first [assumption | reflexivity]|]).
+      split; [apply snapshot_BR; assumption|]. split; [assumption|]. split; [assumption|].
+      split; [cbn [forallb fd_on h' mkhelper hwas hph andb]; exact Hon|]. repeat split; assumption.
+    + eapply Docs_quiet with (q := q); try reflexivity; try eassumption; reflexivity.
+  - left. exact Ei.
+  - exists (VBool true :: vs). cbn [map List.length p_fl q' mkpos new_none]. split; [reflexivity|]. split; [lia | exact Hnn].
+Qed.
+
+(* a quiet frame on top returns and is popped *)
+Lemma step_w_pop (s : st) os q f fl1 v vs v' :
+  CoreW q s os -> state s = Running -> pc s = PcSleep0 -> must_cancel s = false -> permit s = true ->
+  p_fl q = f :: fl1 -> quietw f = true -> WinOK fl1 -> frame_resume (fd_frame f) (Send v) = (Returned v', []) ->
+  resps s = map RVal (v :: vs) -> List.length vs = S (List.length fl1) -> new_none fl1 vs ->
+  StepOK s os (task_step s).
+Proof.
+  intros HC Hst Hpc Hmc Hpm Efl Hq Hw1 Hfr Hrs Hlen Hnn.
+  destruct (win_facts s os q HC) as (Ec & Ei & Ea & Hw & Hca & Hrw).
+  destruct HC as (HP & HLk & HD).
+  pose proof HLk as (L1 & L2 & L3 & L4 & L5 & L6 & L7 & L8 & L9 & L10). rewrite Efl in L2. cbn [map app] in L2.
+  destruct (stack_shape fl1 (FUser pid (p_p q) (p_started q))) as (f2 & tl & Hsh & Hlt). rewrite Hsh in L2.
+  unfold StepOK.
+  rewrite (task_pop P presume plan_of D dev s v (map RVal vs) (fd_frame f) f2 tl v' Hpc Hmc Hst Hpm L6 L5 Hrs L2 Hfr)
+    by (rewrite map_length; lia).
+  cbn [fst snd]. intros _.
+  apply Inv_neutral; [apply neutral_intro; reflexivity|].
+  eapply I_w with (q := mkpos (p_pre q) (p_c q) (p_infl q) fl1 (p_u q) (p_p q) (p_started q) (p_a0 q) (p_acur q) (p_aend q) (p_d0 q) (p_dc q));
+    simp_st; try congruence.
+  - split; [eapply PosOK_pop; [exact HP | exact Efl | apply quietw_msgs; exact Hq]|]. split; [|exact HD].
+    unfold LinkR, mkpos; cbn [p_c p_infl p_fl p_p p_started p_acur p_a0 p_aend]. simp_st. rewrite L2, Hsh. cbn [List.tl].
+    repeat (split; [first [assumption | reflexivity | split; [exact Ec | split; [exact Ei | exact Hw1]]]|]); assumption.
+  - exists vs. split; [reflexivity|]. split; [cbn [p_fl mkpos]; lia | exact Hnn].
+Qed.
+
+(* a suspension request's plan starts while rewinding is off: nothing to rewind, the new suspender plan is quiet *)
+Lemma step_w_start (s : st) os q sid fl1 vs :
+  CoreW q s os -> state s = Running -> pc s = PcSleep0 -> must_cancel s = false -> permit s = true ->
+  p_fl q = FDS sid false :: fl1 -> WinOK fl1 ->
+  resps s = map RVal (VNone :: vs) -> List.length vs = S (List.length fl1) -> new_none fl1 vs ->
+  StepOK s os (task_step s).
+Proof.
+  intros HC Hst Hpc Hmc Hpm Efl Hw1 Hrs Hlen Hnn.
+  destruct (win_facts s os q HC) as (Ec & Ei & Ea & Hw & Hca & Hrw).
+  destruct HC as (HP & HLk & HD).
+  pose proof HLk as (L1 & L2 & L3 & L4 & L5 & L6 & L7 & L8 & L9 & L10). rewrite Efl in L2. cbn [map app fd_frame] in L2.
+  destruct (task_start_suspender P presume plan_of D dev Hdev s (map RVal vs) (map fd_frame fl1 ++ [FUser pid (p_p q) (p_started q)])
+              sid [] Hpc Hmc Hst Hpm L6 L5 Hrs L2) as (s3 & o & E & S3 & Q3);
+    [rewrite map_length, app_length, map_length; cbn; lia | eapply nobintr_BR; exact L4 | exact Hca |].
+  cbv zeta in E. unfold StepOK. rewrite E. cbn [fst snd]. intros _.
+  destruct (ctl_out_quiet (smsg sid) o VNone [OTask WSleep0] Q3 (or_introl eq_refl)) as (O1 & O2 & O3). cbv zeta in O1, O2, O3.
+  pose proof (dsame_nsame _ _ S3) as N3. destruct S3 as ((K1 & K2 & K3 & K4 & K5 & K6 & K7 & K8 & K9 & K10 & K11 & K12 & K13) & C1 & C2 & C3).
+  destruct N3 as (A1 & A2 & A3 & A5 & A6 & A7 & A8 & A9 & A10). cbn [List.length Nat.eqb] in *. simp_st. rewrite L2 in *. cbn [List.tl] in *.
+  set (q' := mkpos (p_pre q) (p_c q) (p_infl q) (FDH (mkhelper P H0 sid false []) :: FDS sid true :: fl1) (p_u q) (p_p q) (p_started q)
+                   (p_a0 q) (p_acur q) (p_aend q) (p_d0 q) (p_dc q)).
+  assert (HP' : PosOK q').
+  { assert (H1 := PosOK_retop q (FDS sid false) (FDS sid true) fl1 HP Efl eq_refl eq_refl (fun H => H)).
+    set (q1 := mkpos (p_pre q) (p_c q) (p_infl q) (FDS sid true :: fl1) (p_u q) (p_p q) (p_started q) (p_a0 q) (p_acur q) (p_aend q) (p_d0 q) (p_dc q)) in H1.
+    destruct H1 as (P1 & P2 & P3 & P4 & (dseg & P5) & P6 & P7 & P8a & P8b & P8c).
+    unfold PosOK, q', mkpos, pend in *; cbn in *. rewrite fmsgs_cons in *. cbn [fd_msgs mkhelper hph hrw app] in *.
+    pos_split; try assumption; [exists dseg; exact P5|].
+    intros tops h rest E0 Hph. destruct tops as [|t tops]; cbn in E0.
+    - rewrite Ec, Ei. auto.
+    - injection E0 as <- E0. destruct (P8c tops h rest E0 Hph) as (X1 & X2 & X3). rewrite fmsgs_cons. cbn. auto. }
+  eapply I_w with (q := q'); simp_st; rewrite ?Hrw; try congruence.
+  - split; [exact HP'|]. split; [|eapply Docs_quiet with (q := q); try reflexivity; eassumption].
+    unfold LinkR, q', mkpos; cbn [p_c p_infl p_fl p_p p_started p_acur p_a0 p_aend map app fd_frame]. simp_st. rewrite Ec, Ei. cbn [app].
+    repeat (split; [first [congruence | reflexivity | split; [reflexivity | split; [reflexivity | apply WinOK_push; [reflexivity | apply WinOK_push; [reflexivity | exact Hw1]]]]]|]); congruence.
+  - exists (VNone :: VNone :: vs). cbn [map List.length p_fl q' mkpos new_none]. split; [simp_st; congruence|]. split; [lia | exact Hnn].
+Qed.
+
+(* the task runs inside the window *)
 Lemma step_task_w (s : st) os q :
   CoreW q s os -> state s = Running -> pc s = PcSleep0 -> must_cancel s = false -> permit s = true ->
   RespsOK (p_fl q) (S (List.length (p_fl q))) s -> StepOK s os (task_step s).
 Proof.
-  intros (HP & HLk & HD) Hst Hpc Hmc Hpm (vs & Hrs & Hlen & Hnn).
-  pose proof HLk as (L1 & L2 & L3 & L4 & L5 & L6 & (Ec & Ei & h & rest & Efl & Hwin & Hnw) & L8 & L9 & L10).
-  pose proof (pos_facts q HP) as (W0 & Wc & We & Hrr & Hn & Hds & Hfresh & _).
-  pose proof HP as (P1 & P2 & P3 & P4 & P5 & P6 & P7 & P8a & P8b & P8c).
-  rewrite Ec, Ei in *. cbn [app] in L1. cbn in P4. injection P4 as Ea Ed. rewrite <- Ea in *.
-  rewrite Efl in *. cbn [map app fd_frame] in L2. cbn [forallb] in P8b. apply andb_true_iff in P8b. destruct P8b as [Hok Hokr].
-  destruct vs as [|v vs]; [discriminate Hlen|]. cbn [List.length] in Hlen. cbn [new_none] in Hnn.
-  destruct (helper_win_cases h Hok Hwin) as (sid & rw & [-> | [-> | ->]]).
-  - (* wait_for *)
-    set (h' := mkhelper P HWait sid true rw).
-    set (sA := RE.replace_top P D (RE.set_resps P D (RE.set_must_cancel P D s false) (map RVal vs)) (FHelper h')).
-    assert (Hex : exec_cmd (pre_exec P D sA (wfmsg sid)) (wfmsg sid) = (sA, Susp (KWaitFor [sid]), [])).
-    { unfold pre_exec. cbn [mobj wfmsg RE.mk mcmd]. subst sA. simp_st. rewrite L1, L8. cbn [andb]. reflexivity. }
-    unfold StepOK.
-    rewrite (task_msg_susp P presume plan_of D dev s v (map RVal vs) (FHelper (mkhelper P HRwFalse sid true rw))
-               (map fd_frame rest ++ [FUser pid (p_p q) (p_started q)]) (wfmsg sid) (FHelper h') [] sA (KWaitFor [sid]) [] Hpc Hmc L6 L5 Hrs L2);
-      [| reflexivity | reflexivity | exact Hex].
-    cbn [fst snd app]. intros _.
-    set (q' := mkpos (p_pre q) [] [] (FDH h' :: rest) (p_u q) (p_p q) (p_started q) (p_a0 q) (p_a0 q) (p_aend q) (p_d0 q) (p_dc q)).
-    subst sA. simp_st.
-    eapply (I_wc _ _ q' sid); simp_st; rewrite ?L2; cbn [List.tl]; try congruence.
-    + split; [|split].
-      * assert (HP' := PosOK_retop q (FDH (mkhelper P HRwFalse sid true rw)) (FDH h') rest HP Efl eq_refl eq_refl).
-        rewrite Ec, Ei, <- Ea in HP'. apply HP'. intros Hf. discriminate Hf.
-      * unfold LinkR, q', mkpos; cbn [p_c p_infl p_fl p_p p_started p_acur p_a0 p_aend map app fd_frame]. simp_st. rewrite L2. cbn [List.tl].
-        repeat split; try assumption; try reflexivity.
-        exists h', rest. split; [reflexivity|]. split; [reflexivity | exact Hnw].
-      * eapply Docs_quiet with (q := q); try reflexivity; eassumption.
-    + exists h', rest. split; reflexivity.
-    + exists vs. cbn [p_fl q' mkpos List.tl List.length]. split; [reflexivity|]. split; [lia | exact Hnn].
-  - (* _resume_from_suspender *)
-    set (h' := mkhelper P HResume sid true rw).
-    set (sA := RE.replace_top P D (RE.set_resps P D (RE.set_must_cancel P D s false) (map RVal vs)) (FHelper h')).
-    destruct (call_pausables_ok P D dev Hdev sA MResume (or_intror eq_refl)) as (s3 & o & E3 & S3 & Q3).
-    assert (Hex : exec_cmd (pre_exec P D sA rsmsg) rsmsg = (s3, Done (RVal VNone), o)).
-    { unfold pre_exec. cbn [mobj rsmsg RE.mk mcmd]. assert (Hc : cache sA = Some []) by (subst sA; simp_st; exact L1).
-      assert (Hr : rewindable sA = false) by (subst sA; simp_st; exact L8). rewrite Hc, Hr. cbn [andb].
-      unfold RE.exec_cmd. cbn [mcmd]. rewrite E3. reflexivity. }
-    pose proof (dsame_nsame _ _ S3) as N3. destruct S3 as ((K1 & K2 & K3 & K4 & K5 & K6 & K7 & K8 & K9 & K10 & K11 & K12 & K13) & C1 & C2 & C3).
-    unfold StepOK.
-    rewrite (task_msg_done P presume plan_of D dev s v (map RVal vs) (FHelper (mkhelper P HWait sid true rw))
-               (map fd_frame rest ++ [FUser pid (p_p q) (p_started q)]) rsmsg (FHelper h') [] s3 (RVal VNone) o Hpc Hmc Hst Hpm L6 L5 Hrs L2);
-      [| rewrite map_length, app_length, map_length; cbn; lia | reflexivity | reflexivity | exact Hex | unfold keeps5; auto].
-    cbn [fst snd]. intros _.
-    destruct (ctl_out_quiet rsmsg o VNone [OTask WSleep0] Q3 (or_introl eq_refl)) as (O1 & O2 & O3). cbv zeta in O1, O2, O3.
-    cbn [app] in O1, O2, O3 |- *.
-    set (q' := mkpos (p_pre q) [] [] (FDH h' :: rest) (p_u q) (p_p q) (p_started q) (p_a0 q) (p_a0 q) (p_aend q) (p_d0 q) (p_dc q)).
-    destruct N3 as (A1 & A2 & A3 & A5 & A6 & A7 & A8 & A9 & A10). subst sA. simp_st. rewrite L2 in *. cbn [List.tl] in *.
-    eapply I_w with (q := q'); simp_st; try congruence.
-    + split; [|split].
-      * assert (HP' := PosOK_retop q (FDH (mkhelper P HWait sid true rw)) (FDH h') rest HP Efl eq_refl eq_refl).
-        rewrite Ec, Ei, <- Ea in HP'. apply HP'. intros Hf. discriminate Hf.
-      * unfold LinkR, q', mkpos; cbn [p_c p_infl p_fl p_p p_started p_acur p_a0 p_aend map app fd_frame]. simp_st.
-        repeat split; try congruence; try (exists h', rest; split; [reflexivity|]; split; [reflexivity | exact Hnw]).
-      * eapply Docs_quiet with (q := q); try reflexivity; eassumption.
-    + exists (VNone :: vs). cbn [map List.length p_fl q' mkpos new_none]. split; [simp_st; congruence|]. split; [lia | exact Hnn].
-  - (* rewindable(True): the section ends; a checkpoint-like message *)
-    set (h' := mkhelper P HRwBack sid true rw).
-    set (sA := RE.replace_top P D (RE.set_resps P D (RE.set_must_cancel P D s false) (map RVal vs)) (FHelper h')).
-    set (s3 := RE.map_bundlers P D b_snapshot (RE.set_cache P D (RE.set_rewindable P D sA true) (Some []))).
-    assert (Hex : exec_cmd (pre_exec P D sA (rwmsg true)) (rwmsg true) = (s3, Done (RVal (VBool true)), [])).
-    { unfold pre_exec. cbn [mobj rwmsg RE.mk mcmd]. subst s3 sA. simp_st. rewrite L1, L8. cbn [andb].
-      unfold RE.exec_cmd. cbn [mcmd rwmsg RE.mk]. simp_st. rewrite L8. cbn [Bool.eqb negb andb]. unfold RE.resumable, RE.reset_checkpoint. simp_st. rewrite L1. reflexivity. }
-    unfold StepOK.
-    rewrite (task_msg_done P presume plan_of D dev s v (map RVal vs) (FHelper (mkhelper P HResume sid true rw))
-               (map fd_frame rest ++ [FUser pid (p_p q) (p_started q)]) (rwmsg true) (FHelper h') [] s3 (RVal (VBool true)) [] Hpc Hmc Hst Hpm L6 L5 Hrs L2);
-      [| rewrite map_length, app_length, map_length; cbn; lia | reflexivity | reflexivity | exact Hex | subst s3 sA; unfold keeps5; simp_st; repeat split; reflexivity].
-    cbn [fst snd]. intros _.
-    destruct (ctl_out_quiet (rwmsg true) [] (VBool true) [OTask WSleep0] eq_refl (or_introl eq_refl)) as (O1 & O2 & O3). cbv zeta in O1, O2, O3.
-    cbn [app] in O1, O2, O3 |- *.
-    set (q' := mkpos (p_pre q) [] [] (FDH h' :: rest) (p_u q) (p_p q) (p_started q) (p_a0 q) (p_a0 q) (p_aend q) (p_d0 q) (p_dc q)).
-    subst s3 sA. simp_st.
-    eapply I_rs with (q := q'); simp_st; rewrite ?L2; cbn [List.tl]; try congruence.
-    + split; [|split].
-      * assert (HP' := PosOK_retop q (FDH (mkhelper P HResume sid true rw)) (FDH h') rest HP Efl eq_refl eq_refl).
-        rewrite Ec, Ei, <- Ea in HP'. apply HP'. intros Hf. discriminate Hf.
-      * unfold Link, LinkR, q', mkpos; cbn [p_c p_infl p_fl p_p p_started p_acur p_a0 p_aend map app fd_frame]. simp_st. rewrite L2. cbn [List.tl].
-        repeat split; try assumption; try reflexivity.
-        apply snapshot_BR; assumption.
-      * eapply Docs_quiet with (q := q); try reflexivity; eassumption.
-    + left. reflexivity.
-    + exists (VBool true :: vs). cbn [map List.length p_fl q' mkpos new_none]. split; [reflexivity|]. split; [lia | exact Hnn].
+  intros HC Hst Hpc Hmc Hpm (vs & Hrs & Hlen & Hnn).
+  destruct (win_facts s os q HC) as (Ec & Ei & Ea & Hw & Hca & Hrw).
+  pose proof HC as (HP & HLk & HD).
+  pose proof HP as (_ & _ & _ & _ & _ & _ & _ & _ & P8b & _).
+  destruct (p_fl q) as [|f fl1] eqn:Efl; [destruct Hw as (tops & h & rest & E & _); destruct tops; discriminate E|].
+  destruct vs as [|v vs]; [discriminate Hlen|]. cbn [List.length] in Hlen.
+  cbn [forallb] in P8b. apply andb_true_iff in P8b. destruct P8b as [Hok Hokr].
+  assert (Hlen' : List.length vs = S (List.length fl1)) by lia.
+  destruct (WinOK_cases f fl1 Hw) as [(Hq & Hw1) | (h & -> & Hwin & Hwas & Hon)].
+  - (* a quiet frame *)
+    destruct f as [[|m0 l0]|sid [|]|h]; try discriminate Hq.
+    + cbn [new_none] in Hnn. eapply (step_w_pop s os q (FDL []) fl1 v vs VNone); try eassumption; reflexivity.
+    + cbn [new_none] in Hnn. eapply (step_w_pop s os q (FDS sid true) fl1 v vs v); try eassumption; reflexivity.
+    + cbn [new_none] in Hnn. destruct Hnn as [-> Hnn]. eapply (step_w_start s os q sid fl1 vs); eassumption.
+    + (* a suspender plan started inside the window *)
+      cbn [new_none] in Hnn. destruct h as [ph sid pre post was rw]. cbn [quietw hwas hrw hph fd_ok hpre hpost] in Hq, Hok.
+      destruct pre; [destruct post; discriminate Hok|]. destruct post; [discriminate Hok|].
+      apply andb_true_iff in Hq. destruct Hq as [Hq Hq3]. apply andb_true_iff in Hq. destruct Hq as [Hq1 Hq2].
+      destruct was; [discriminate Hq1|]. destruct rw; [|discriminate Hq2].
+      destruct ph as [| |p0| | |p0| |ms]; try discriminate Hok.
+      * (* rewindable(False): already off *)
+        eapply (step_w_ctl_done s os q (mkhelper P H0 sid false []) (mkhelper P HRwFalse sid false []) fl1 v vs (rwmsg false) (VBool false) []);
+          try eassumption; try reflexivity; try discriminate.
+        -- apply WinOK_push; [reflexivity | exact Hw1].
+        -- cbv zeta. split.
+           ++ unfold pre_exec. cbn [mobj rwmsg RE.mk mcmd]. simp_st. rewrite Hca, Hrw. cbn [andb].
+              unfold RE.exec_cmd. cbn [mcmd rwmsg RE.mk]. simp_st. rewrite Hrw. cbn [Bool.eqb negb andb]. rewrite andb_false_r. simp_st. rewrite ?Hrw. reflexivity.
+           ++ unfold RE_PointsC.dsame, RE_PointsB.keeps. simp_st. rewrite ?Hrw. repeat split; reflexivity.
+      * eapply (step_w_wait s os q sid false [] fl1 v vs); try eassumption. apply WinOK_push; [reflexivity | exact Hw1].
+      * (* _resume_from_suspender *)
+        destruct (call_pausables_ok P D dev Hdev (RE.replace_top P D (RE.set_resps P D (RE.set_must_cancel P D s false) (map RVal vs)) (FHelper (mkhelper P HResume sid false []))) MResume (or_intror eq_refl)) as (s3 & o & E3 & S3 & Q3).
+        eapply (step_w_ctl_done s os q (mkhelper P HWait sid false []) (mkhelper P HResume sid false []) fl1 v vs rsmsg VNone o s3);
+          try eassumption; try reflexivity; try discriminate.
+        -- apply WinOK_push; [reflexivity | exact Hw1].
+        -- cbv zeta. split; [|exact S3].
+           unfold pre_exec. cbn [mobj rsmsg RE.mk mcmd]. simp_st. rewrite Hca, Hrw. cbn [andb].
+           unfold RE.exec_cmd. cbn [mcmd rsmsg RE.mk]. rewrite E3. reflexivity.
+      * (* rewindable(False) again: the suspender plan puts back what it found *)
+        eapply (step_w_ctl_done s os q (mkhelper P HResume sid false []) (mkhelper P HRwBack sid false []) fl1 v vs (rwmsg false) (VBool false) []);
+          try eassumption; try reflexivity; try discriminate.
+        -- apply WinOK_push; [reflexivity | exact Hw1].
+        -- cbv zeta. split.
+           ++ unfold pre_exec. cbn [mobj rwmsg RE.mk mcmd]. simp_st. rewrite Hca, Hrw. cbn [andb].
+              unfold RE.exec_cmd. cbn [mcmd rwmsg RE.mk]. simp_st. rewrite Hrw. cbn [Bool.eqb negb andb]. rewrite andb_false_r. simp_st. rewrite ?Hrw. reflexivity.
+           ++ unfold RE_PointsC.dsame, RE_PointsB.keeps. simp_st. rewrite ?Hrw. repeat split; reflexivity.
+      * eapply (step_w_pop s os q (FDH (mkhelper P HRwBack sid false [])) fl1 v vs VNone); try eassumption; reflexivity.
+      * destruct ms; [|discriminate Hq3].
+        eapply (step_w_pop s os q (FDH (mkhelper P (HRewind []) sid false [])) fl1 v vs VNone); try eassumption; reflexivity.
+  - (* the suspender plan that switched rewinding off *)
+    cbn [new_none] in Hnn. destruct h as [ph sid pre post was rw]. cbn [fd_win hwas hph fd_ok hpre hpost] in Hwin, Hwas, Hok. subst was.
+    destruct pre; [destruct post; discriminate Hok|]. destruct post; [discriminate Hok|].
+    destruct ph as [| |p0| | |p0| |ms]; try discriminate Hwin.
+    + eapply (step_w_wait s os q sid true rw fl1 v vs); try eassumption. apply WinOK_outer; [reflexivity | reflexivity | exact Hon].
+    + destruct (call_pausables_ok P D dev Hdev (RE.replace_top P D (RE.set_resps P D (RE.set_must_cancel P D s false) (map RVal vs)) (FHelper (mkhelper P HResume sid true rw))) MResume (or_intror eq_refl)) as (s3 & o & E3 & S3 & Q3).
+      eapply (step_w_ctl_done s os q (mkhelper P HWait sid true rw) (mkhelper P HResume sid true rw) fl1 v vs rsmsg VNone o s3);
+        try eassumption; try reflexivity; try discriminate.
+      * apply WinOK_outer; [reflexivity | reflexivity | exact Hon].
+      * cbv zeta. split; [|exact S3].
+        unfold pre_exec. cbn [mobj rsmsg RE.mk mcmd]. simp_st. rewrite Hca, Hrw. cbn [andb].
+        unfold RE.exec_cmd. cbn [mcmd rsmsg RE.mk]. rewrite E3. reflexivity.
+    + eapply (step_w_rw_on s os q sid rw fl1 v vs); eassumption.
 Qed.
 
-(* the wait_for of the suspender plan is over (the suspension was released) *)
+(* the wait_for of a suspender plan is over (the suspension was released, or a new request interrupted the wait) *)
 Lemma step_task_wc (s : st) os q sid :
   CoreW q s os -> state s = Running -> pc s = PcCmd (KWaitFor [sid]) -> must_cancel s = false -> permit s = true ->
   (exists h rest, p_fl q = FDH h :: rest /\ hph h = HWait) -> RespsOK (List.tl (p_fl q)) (List.length (p_fl q)) s ->
@@ -1680,11 +1892,26 @@ Qed.
 Lemma Inv_cache (s : st) os : Inv s os -> exists l, cache s = Some l.
 Proof. intros HI. inv_cases HI; try assumption; eexists; apply HLk. Qed.
 
+Ltac link_push HLk :=
+  let L1 := fresh "L" in let L2 := fresh "L" in let L3 := fresh "L" in let L4 := fresh "L" in let L5 := fresh "L" in
+  let L6 := fresh "L" in let L7 := fresh "L" in let L8 := fresh "L" in let L9 := fresh "L" in let L10 := fresh "L" in
+  destruct HLk as (L1 & L2 & L3 & L4 & L5 & L6 & L7 & L8 & L9 & L10);
+  unfold Link, LinkR, mkpos; cbn [p_c p_infl p_fl p_p p_started p_acur p_a0 p_aend map app fd_frame]; simp_st;
+  split; [assumption|]; split; [rewrite L2; reflexivity|]; split; [assumption|]; split; [assumption|];
+  split; [assumption|]; split; [assumption|];
+  split; [ lazymatch goal with
+           | |- forallb _ _ = true => exact L7
+           | |- _ /\ _ => destruct L7 as (? & ? & ?); split; [assumption | split; [assumption | apply WinOK_push; [reflexivity | assumption]]]
+           | |- if ?rw then _ else _ =>
+               destruct rw; [exact L7 | destruct L7 as (? & ? & ?); split; [assumption | split; [assumption | apply WinOK_push; [reflexivity | assumption]]]]
+           end |];
+  repeat split; assumption.
+
 Lemma step_reqsuspend (s : st) os sd :
-  Inv s os -> rewindable s = true ->
+  Inv s os ->
   Inv (fst (step s (EvReqSuspend sd false false))) (os ++ snd (step s (EvReqSuspend sd false false))).
 Proof.
-  intros HI Hrw. destruct (Inv_cache s os HI) as [lc Hcache].
+  intros HI. destruct (Inv_cache s os HI) as [lc Hcache].
   cbn [RE.step]. unfold RE.resumable. simp_st. rewrite Hcache. cbn [negb].
   set (s0 := RE.set_futs P D s (if amem sd (RE.futs P D s) then RE.futs P D s else aset sd false (RE.futs P D s))).
   assert (Hcs0 : csame s s0) by (subst s0; csame_tac).
@@ -1698,12 +1925,9 @@ Proof.
     apply Inv_neutral; [exact Hn|]. eapply Inv_csame; [exact Hc|].
     clear HI. inv_cases HI0; try (rewrite Hst in Epa; discriminate Epa); try (destruct Hst as [Hst|Hst]; rewrite Hst in Epa; discriminate Epa).
     destruct Hrs as (vs & Hrs & Hlen & Hnn).
-    eapply I_pd with (q := mkpos (p_pre q) (p_c q) (p_infl q) (FDS sd false :: p_fl q) (p_u q) (p_p q) (p_started q)
-                                 (p_a0 q) (p_acur q) (p_aend q) (p_d0 q) (p_dc q)); simp_st; try assumption.
-    + split; [apply PosOK_push; exact HP|]. split; [|exact HD].
-      destruct HLk as (L1 & L2 & L3 & L4 & L5 & L6 & L7 & L8 & L9 & L10).
-      unfold Link, LinkR, mkpos; cbn [p_c p_infl p_fl p_p p_started p_acur p_a0 p_aend map app fd_frame]. simp_st.
-      repeat split; try assumption. rewrite L2. reflexivity.
+    eapply (I_pd _ _ (mkpos (p_pre q) (p_c q) (p_infl q) (FDS sd false :: p_fl q) (p_u q) (p_p q) (p_started q)
+                            (p_a0 q) (p_acur q) (p_aend q) (p_d0 q) (p_dc q)) rw); simp_st; try assumption.
+    + split; [apply PosOK_push; exact HP|]. split; [|exact HD]. link_push HLk.
     + intros Hi. right. exists sd, (p_fl q). reflexivity.
     + exists (VNone :: vs). cbn [map List.length p_fl mkpos new_none]. split; [simp_st; rewrite Hrs; reflexivity|]. split; [lia | auto].
   - apply rstate_eqb_neq in Epa. unfold RE.set_state.
@@ -1720,34 +1944,37 @@ Proof.
         rewrite Hpc; simp_st.
       * (* sleep0 *)
         destruct Hrs as (vs & Hrs & Hlen & Hnn).
-        eapply I_ss with (q := mkpos (p_pre q) (p_c q) (p_infl q) (FDS sd false :: p_fl q) (p_u q) (p_p q) (p_started q)
-                                     (p_a0 q) (p_acur q) (p_aend q) (p_d0 q) (p_dc q)); simp_st; try assumption; try reflexivity.
-        -- split; [apply PosOK_push; exact HP|]. split; [|exact HD].
-           destruct HLk as (L1 & L2 & L3 & L4 & L5 & L6 & L7 & L8 & L9 & L10).
-           unfold Link, LinkR, mkpos; cbn [p_c p_infl p_fl p_p p_started p_acur p_a0 p_aend map app fd_frame]. simp_st.
-           repeat split; try assumption. rewrite L2. reflexivity.
+        eapply (I_ss _ _ (mkpos (p_pre q) (p_c q) (p_infl q) (FDS sd false :: p_fl q) (p_u q) (p_p q) (p_started q)
+                                (p_a0 q) (p_acur q) (p_aend q) (p_d0 q) (p_dc q)) true); simp_st; try assumption; try reflexivity.
+        -- split; [apply PosOK_push; exact HP|]. split; [|exact HD]. link_push HLk.
         -- exists sd, (p_fl q). reflexivity.
         -- exists (VNone :: vs). cbn [map List.length p_fl mkpos new_none]. split; [simp_st; rewrite Hrs; reflexivity|]. split; [lia | auto].
       * (* a command is waiting on a future *)
         destruct Hrs as (vs & Hrs & Hlen & Hnn').
         eapply (I_sc _ _ (mkpos (p_pre q) (p_c q) (p_infl q) (FDS sd false :: p_fl q) (p_u q) (p_p q) (p_started q)
-                                (p_a0 q) (p_acur q) (p_aend q) (p_d0 q) (p_dc q)) k); simp_st; try assumption; try reflexivity.
-        -- split; [apply PosOK_push; exact HP|]. split; [|exact HD].
-           destruct HLk as (L1 & L2 & L3 & L4 & L5 & L6 & L7 & L8 & L9 & L10).
-           unfold Link, LinkR, mkpos; cbn [p_c p_infl p_fl p_p p_started p_acur p_a0 p_aend map app fd_frame]. simp_st.
-           repeat split; try assumption. rewrite L2. reflexivity.
+                                (p_a0 q) (p_acur q) (p_aend q) (p_d0 q) (p_dc q)) k true); simp_st; try assumption; try reflexivity.
+        -- split; [apply PosOK_push; exact HP|]. split; [|exact HD]. link_push HLk.
         -- exists sd, (p_fl q), vs. cbn [p_fl mkpos]. repeat split; try assumption. simp_st. rewrite Hrs. reflexivity.
       * (* the grace sleep of a checkpoint *)
         destruct Hrs as (vs & Hrs & Hlen & Hnn').
         eapply (I_sc _ _ (mkpos (p_pre q) (p_c q) (p_infl q) (FDS sd false :: p_fl q) (p_u q) (p_p q) (p_started q)
-                                (p_a0 q) (p_acur q) (p_aend q) (p_d0 q) (p_dc q)) KCkptSleep); simp_st; try assumption; try reflexivity.
-        -- split; [apply PosOK_push; exact HP|]. split; [|exact HD].
-           destruct HLk as (L1 & L2 & L3 & L4 & L5 & L6 & L7 & L8 & L9 & L10).
-           unfold Link, LinkR, mkpos; cbn [p_c p_infl p_fl p_p p_started p_acur p_a0 p_aend map app fd_frame]. simp_st.
-           repeat split; try assumption. rewrite L2. reflexivity.
+                                (p_a0 q) (p_acur q) (p_aend q) (p_d0 q) (p_dc q)) KCkptSleep true); simp_st; try assumption; try reflexivity.
+        -- split; [apply PosOK_push; exact HP|]. split; [|exact HD]. link_push HLk.
         -- exists sd, (p_fl q), vs. cbn [p_fl mkpos]. repeat split; try assumption. simp_st. rewrite Hrs. reflexivity.
-      * exfalso. destruct HLk as (_ & _ & _ & _ & _ & _ & _ & L8 & _). change (rewindable s0) with (rewindable s) in L8. congruence.
-      * exfalso. destruct HLk as (_ & _ & _ & _ & _ & _ & _ & L8 & _). change (rewindable s0) with (rewindable s) in L8. congruence.
+      * (* inside a window, between two messages *)
+        destruct Hrs as (vs & Hrs & Hlen & Hnn).
+        eapply (I_ss _ _ (mkpos (p_pre q) (p_c q) (p_infl q) (FDS sd false :: p_fl q) (p_u q) (p_p q) (p_started q)
+                                (p_a0 q) (p_acur q) (p_aend q) (p_d0 q) (p_dc q)) false); simp_st; try assumption; try reflexivity.
+        -- split; [apply PosOK_push; exact HP|]. split; [|exact HD]. link_push HLk.
+        -- exists sd, (p_fl q). reflexivity.
+        -- exists (VNone :: vs). cbn [map List.length p_fl mkpos new_none]. split; [simp_st; rewrite Hrs; reflexivity|]. split; [lia | auto].
+      * (* inside a window, in the wait_for of the suspender plan *)
+        destruct Hrs as (vs & Hrs & Hlen & Hnn').
+        eapply (I_sc _ _ (mkpos (p_pre q) (p_c q) (p_infl q) (FDS sd false :: p_fl q) (p_u q) (p_p q) (p_started q)
+                                (p_a0 q) (p_acur q) (p_aend q) (p_d0 q) (p_dc q)) (KWaitFor [sid]) false); simp_st; try assumption; try reflexivity.
+        -- split; [apply PosOK_push; exact HP|]. split; [|exact HD]. link_push HLk.
+        -- exists sd, (p_fl q), vs. cbn [p_fl mkpos]. destruct Hhw as (h & rest & Efl & _).
+           repeat split; try assumption; [simp_st; rewrite Hrs; reflexivity | rewrite Efl; exact I].
       * (* the final sleep *)
         eapply I_late; simp_st; try assumption; try reflexivity; [|right; reflexivity].
         destruct F5 as (D1 & D2 & D3 & D4). unfold FinCore, DocsAll. simp_st. cbn [forallb is_single andb]. repeat split; assumption.
@@ -1783,21 +2010,21 @@ Proof.
     + apply (step_task_rs s os q); try assumption. split; [exact HP | split; [exact HLk | exact HD]].
     + apply (step_task_rc s os q k m); try assumption. split; [exact HP | split; [exact HLk | exact HD]].
     + apply (step_task_rk s os q); try assumption. split; [exact HP | split; [exact HLk | exact HD]].
-    + apply (step_task_pause s os q); try assumption; [split; [exact HP | split; [exact HLk | exact HD]]|]. left. auto.
-    + apply (step_task_pause s os q); try assumption; [split; [exact HP | split; [exact HLk | exact HD]]|]. right. exists k. auto.
-    + apply (step_task_pd s os q); try assumption. split; [exact HP | split; [exact HLk | exact HD]].
-    + apply (step_task_ss s os q); try assumption. split; [exact HP | split; [exact HLk | exact HD]].
-    + apply (step_task_sc s os q k); try assumption. split; [exact HP | split; [exact HLk | exact HD]].
+    + apply (step_task_pause s os q rw); try assumption; [split; [exact HP | split; [exact HLk | exact HD]]|]. left. auto.
+    + apply (step_task_pause s os q rw); try assumption; [split; [exact HP | split; [exact HLk | exact HD]]|]. right. exists k. auto.
+    + apply (step_task_pd s os q rw); try assumption. split; [exact HP | split; [exact HLk | exact HD]].
+    + apply (step_task_ss s os q rw); try assumption. split; [exact HP | split; [exact HLk | exact HD]].
+    + apply (step_task_sc s os q k rw); try assumption. split; [exact HP | split; [exact HLk | exact HD]].
     + apply (step_task_w s os q); try assumption. split; [exact HP | split; [exact HLk | exact HD]].
     + apply (step_task_wc s os q sid); try assumption. split; [exact HP | split; [exact HLk | exact HD]].
     + apply step_task_final; [unfold FinCore; auto | left; auto | exact Hpc | exact Hca].
     + apply step_task_final; [unfold FinCore; auto | right; auto | exact Hpc | exact Hca].
     + eapply step_task_done; eassumption.
   - (* pause request *)
-    apply step_reqpause; [exact HI | destruct (rewindable s); [reflexivity | discriminate Hok]].
+    apply step_reqpause. exact HI.
   - (* suspension request *)
     destruct pre; [discriminate Hok|]. destruct post; [discriminate Hok|].
-    apply step_reqsuspend; [exact HI | destruct (rewindable s); [reflexivity | discriminate Hok]].
+    apply step_reqsuspend. exact HI.
   - (* release *)
     apply step_release. exact HI.
   - (* status *)
